@@ -60,6 +60,11 @@ pub fn run_trace(prop: &str, trace: &Trace, stats: &mut Stats) -> Result<(), Vio
     let r = std::panic::catch_unwind(std::panic::AssertUnwindSafe(|| worlds::exec(trace, &mut ctx)));
     let op = ctx.op;
     match r {
+        Ok(Err(v)) if prop == "C20" && !matches!(trace, Trace::Poison(_)) && v.prop != "HARNESS" && !v.tag.starts_with("panic") => {
+            // a functional verdict of another property's oracle: not undefined behaviour
+            stats.hit("foreign-verdict-ignored");
+            Ok(())
+        }
         Ok(r) => r,
         Err(e) => {
             let msg = panic_message(&*e);
@@ -117,6 +122,11 @@ pub fn worker(prop: &str, seed: u64, from: u64, to: u64, thorough: bool, progres
         }
         if out.samples.len() < 2 && n_ops >= 3 && n_ops <= 14 {
             out.samples.push(serde_json::to_value(&trace).unwrap());
+        }
+        if cfg!(miri) && n_ops > 300 {
+            // the interpreter is ~1000x slower: very long histories are left to the native tier
+            out.stats.hit("miri-skipped-long-run");
+            continue;
         }
         match run_trace(prop, &trace, &mut out.stats) {
             Ok(()) => {}
